@@ -52,8 +52,8 @@ func verifNotAhead(c, own node.Node) {
 
 // VerifC12ThreeNodes: three nodes with arbitrary (mutually consistent) partial views run an arbitrary sequence of
 // pairwise exchanges interleaved with heartbeat ticks and restarts; no exchange moves any view backwards, and
-// after a closing round in which every pair has exchanged in both directions (in any order of the pairs, no
-// further changes) all three views are identical, complete, and hold every owner's own latest record.
+// after a closing round in which every pair has exchanged once (either side initiating, pairs in any order,
+// no further changes) all three views are identical, complete, and hold every owner's own latest record.
 func VerifC12ThreeNodes() {
 	ctx := context.Background()
 	var st [4]store.Store
@@ -121,8 +121,12 @@ func VerifC12ThreeNodes() {
 	order := verifLen("closing-order", 0, verifParam("orders", 5))
 	perm := [6][3]int{{0, 1, 2}, {0, 2, 1}, {1, 0, 2}, {1, 2, 0}, {2, 0, 1}, {2, 1, 0}}[order]
 	for _, p := range perm {
-		okAll = exchange(pairs[2*p][0], pairs[2*p][1]) && okAll
-		okAll = exchange(pairs[2*p+1][0], pairs[2*p+1][1]) && okAll
+		// one exchange per pair is enough (sync/ack/ack2 moves records both ways); which side initiates is arbitrary
+		if verifBool("closing-initiator-is-higher") {
+			okAll = exchange(pairs[2*p+1][0], pairs[2*p+1][1]) && okAll
+		} else {
+			okAll = exchange(pairs[2*p][0], pairs[2*p][1]) && okAll
+		}
 	}
 	verifAssert("three-exchanges-no-error", okAll)
 	verifAssert("three-monotone", monotone)
